@@ -83,6 +83,7 @@ fn main() {
         let rc = match doc.kind.as_str() {
             "bfs" => qcheck::replay(&doc),
             "sweep" => replay_sweep(&doc),
+            _ if doc.part.starts_with("rx-restock") => vlab::replay::replay_dfs(&doc, &c05::run_rx_restock),
             _ => vlab::replay::replay_dfs(&doc, &|| c05::run_wait_pop::<4>()),
         };
         std::process::exit(rc);
@@ -108,5 +109,9 @@ fn main() {
     let cfg = DfsConfig::new("wait_pop:N=4", 0);
     let st = dfs::explore(&cfg, &|| c05::run_wait_pop::<4>());
     c.add_dfs("wait_pop:N=4", &st);
+    // (c') stocked receive queue + wait_for_event against a notify-only device.
+    let cfg = DfsConfig::new("rx-restock+wait_for_event", 0);
+    let st = dfs::explore(&cfg, &c05::run_rx_restock);
+    c.add_dfs("rx-restock+wait_for_event", &st);
     c.finish();
 }
